@@ -292,3 +292,63 @@ func cloneTree(t *Tree) *Tree {
 	}
 	return c
 }
+
+// normTree returns a copy of t as it survives a JSON / text round trip: unknown fields dropped
+// (neither format carries them) and NaN payloads canonicalised ("NaN" / "nan" carry no payload).
+func normTree(md protoreflect.MessageDescriptor, t *Tree, xf extFinder) *Tree {
+	c := cloneTree(t)
+	normInPlace(md, c, xf)
+	return c
+}
+
+func normInPlace(md protoreflect.MessageDescriptor, t *Tree, xf extFinder) {
+	t.Unknown = nil
+	one := func(fd protoreflect.FieldDescriptor, tv *TVal) {
+		switch fd.Kind() {
+		case protoreflect.FloatKind:
+			if b := uint32(tv.Num); b&0x7f800000 == 0x7f800000 && b&0x007fffff != 0 {
+				tv.Num = 0x7fc00000
+			}
+		case protoreflect.DoubleKind:
+			if b := tv.Num; b&0x7ff0000000000000 == 0x7ff0000000000000 && b&0x000fffffffffffff != 0 {
+				tv.Num = 0x7ff8000000000001
+			}
+		case protoreflect.MessageKind, protoreflect.GroupKind:
+			normInPlace(fd.Message(), tv.Msg, xf)
+		}
+	}
+	for _, tf := range t.Fields {
+		var fd protoreflect.FieldDescriptor
+		if tf.Ext {
+			fd = xf(md, tf.Num).TypeDescriptor()
+		} else {
+			fd = md.Fields().ByNumber(tf.Num)
+		}
+		switch tf.kind {
+		case "m":
+			for i := range tf.Map {
+				one(fd.MapValue(), &tf.Map[i].V)
+			}
+		case "l":
+			for i := range tf.List {
+				one(fd, &tf.List[i])
+			}
+		default:
+			one(fd, tf.One)
+		}
+	}
+}
+
+// hasTopLevel reports whether some populated top-level field satisfies p.
+func hasTopLevel(md protoreflect.MessageDescriptor, t *Tree, p func(tf *TField, fd protoreflect.FieldDescriptor) bool) bool {
+	for _, tf := range t.Fields {
+		var fd protoreflect.FieldDescriptor
+		if !tf.Ext {
+			fd = md.Fields().ByNumber(tf.Num)
+		}
+		if p(tf, fd) {
+			return true
+		}
+	}
+	return false
+}
